@@ -108,10 +108,6 @@ example : ∀ i a, 0 ≤ exH i a := fun i a => by unfold exH; positivity
 example : (0 : Nat) < 2 := by decide
 /-- the mutual pair `0 ↔ 1` is counted twice (sum, not max): `L 0 1 = −(h 0 0 + h 1 0)` -/
 example : laplacianL exNb exH 0 1 = -(1 + 1 / 2) := by decide +kernel
-/-- a neighbour listed twice is counted twice: `L 2 0 = −(h 2 0 + h 2 1)` -/
-example : laplacianL exNb exH 2 0 = -(1 / 3 + 1 / 4) := by decide +kernel
-example : degrees exNb exH 0 = (1 + 1 / 2) + (1 / 2 + 1 / 3 + 1 / 4) := by decide +kernel
-example : (laplacianLD exNb exH).get 0 0 = 31 / 12 := by decide +kernel
 
 -- SPECTRAL THEOREMS (appended by the spectral owner)
 
